@@ -4,7 +4,7 @@ import re
 
 from ..authz import GuardAnalysis
 from ..callgraph import site_guarded, explore, storage_effects, message_effects, call_sites
-from ..expr import show, find, DEFAULT
+from ..expr import show, find, DEFAULT, E
 from ..ledger import ledger_entries, classify, stale_reads
 from .common import entry, msg_enum, variant_env, stored, where, arm_handler
 from .C10 import mk_pass, BSHUB, STHUB, TOKINFO
@@ -246,6 +246,74 @@ def run(prog, world, sem, rep):
                 exp_ok = True
         rep.ob("C18.d", "deduct_allowance fails on an expired allowance", exp_ok,
                "Ok result only behind is_expired == false" if exp_ok else "the allowance update can succeed without checking expiry", where(da_body))
+
+    # ---------------------------------------------------------------- C18.h
+    rep.rule("C18.h", "an allowance keeps its expiry unless the owner's message sets one: the `expires` stored by IncreaseAllowance / DecreaseAllowance "
+             "is the message's Some(expiry) or the stored entry's own expiry (the type default only when no entry was stored) - never a default "
+             "substituted for an omitted message field, which would revive a lapsed allowance", 2)
+
+    def alw_read(x, depth=0):
+        """x is the entry read from ALLOWANCES (through unwrap / ? / unwrap_or_default of the read)"""
+        x0 = x
+        for _ in range(6):
+            if x0.op == "proj" and x0.args:
+                x0 = x0.args[0]
+            elif x0.op == "call" and x0.info.rsplit("::", 1)[-1] in ("unwrap_or_default", "unwrap", "expect", "clone") and x0.args:
+                x0 = x0.args[0]
+            else:
+                break
+        if x0.op == "call":
+            so = sem.storage_op(x0)
+            if so and so[0] == "read" and so[1] == ALW:
+                return True
+        l = sem.label(x0)
+        return bool(l) and l[0] == "stored" and l[1] == ALW
+
+    def expiry_alts(x, resolve, depth=0):
+        """[(ok, text)] for the alternatives of a stored expiry value (raw, un-normalised expression)"""
+        if depth > 8:
+            return [(False, show(x, 3))]
+        if x.op == "phi":
+            return [r for a in x.args for r in expiry_alts(a, resolve, depth + 1)]
+        if x.op == "field" and x.info[0] == "expires" and x.args:
+            return [(alw_read(x.args[0]) or alw_read(resolve(x.args[0])), "stored.expires" if alw_read(x.args[0]) else show(x, 3))]
+        if x.op == "proj" and x.info == "some" and x.args:
+            l = sem.label(resolve(x.args[0]))
+            return [(bool(l) and l[0] == "param" and l[4] and l[4][-1] == "expires", "message expires" if l else show(x, 3))]
+        if x.op == "call" and x.args:
+            nm = x.info.rsplit("::", 1)[-1]
+            if nm == "unwrap_or" and len(x.args) == 2:
+                return expiry_alts(E("proj", (x.args[0],), "some"), resolve, depth + 1) + expiry_alts(x.args[1], resolve, depth + 1)
+            if nm in ("clone", "into", "from") and len(x.args) == 1:
+                return expiry_alts(x.args[0], resolve, depth + 1)
+            if nm in ("unwrap_or_default", "unwrap_or_else"):
+                return [(False, "%s of %s (an omitted message field becomes the type default, i.e. `never expires`)" % (nm, show(x.args[0], 3)))]
+        if x.op in ("param", "upvar"):
+            r = resolve(x)
+            if r is not x:
+                return expiry_alts(r, resolve, depth + 1)
+        return [(False, show(x, 4))]
+
+    for v in ("IncreaseAllowance", "DecreaseAllowance"):
+        vs, eff = per_variant.get(v, ([], []))
+        ws = [x for x in eff if x[3] == ALW and x[2] in ("write", "update")]
+        if not ws:
+            rep.ob("C18.h", "bsei::%s expiry" % v, False, "anchor-lost: no write of the allowance map under %s" % v, where(ex))
+            continue
+        bad = []
+        for (vis, bb, kind, cell, key, val, e) in ws:
+            wv = sem.written_value(kind, cell, val)
+            if wv is not None and wv.op != "adt":
+                wv = world.ident(vis.resolve(wv), expand_ws=False)
+            if wv is None or wv.op != "adt" or "expires" not in wv.info[2]:
+                bad.append("stored value not taken apart: %s" % show(wv, 3))
+                continue
+            xv = wv.args[list(wv.info[2]).index("expires")]
+            for ok_, txt in expiry_alts(xv, vis.resolve):
+                if not ok_:
+                    bad.append(txt)
+        rep.ob("C18.h", "bsei::%s expiry" % v, not bad, "stored expiry can be %s" % "; ".join(sorted(set(bad))) if bad else
+               "stored expiry is the message's Some(..) or the entry's own", where(ws[0][0].body, ws[0][1]), key="C18.h | %s" % v)
 
     # ---------------------------------------------------------------- C18.e
     for c, v, cell in (("stsei", "Burn", STHUB), ("stsei", "BurnFrom", STHUB), ("bsei", "BurnFrom", BSHUB)):
